@@ -234,6 +234,17 @@ def check(ctx):
                 f = True      # tokens are right, what Execute / AST / the printer derive from them is not
             if a in ("errmsg", "errpos", "errtext") and im.get("st") == "1":
                 f = not message_ok(rec["inputs"][0], im)
+            if a == "alog" and not rec["kind"].startswith("history") and sp.get("res") in ("S", "F") and "alog" in sp:
+                # the inline action log against the reference semantics alone: Execute's loop over every event of the attempt
+                oi_ = data["grammars"][rec["g"]]["opts"][rec["o"]]
+                runes_ = B.runes_of(rec["inputs"][0])
+                exp_ = []
+                for x in [y for y in sp.get("alog", "").split(",") if y]:
+                    k_, b_, e_ = x.split(":")
+                    exp_.append("%s:%s" % (oi_.get("actmap", {}).get(k_, "?"), "".join(chr(c) for c in runes_[int(b_):int(e_)]).encode("utf-8", errors="surrogatepass").hex()))
+                ial_ = [y for y in im.get("alog", "").split(",") if y]
+                if (sp.get("res") == "S") == (im.get("st") == "0") and ial_ != exp_:
+                    f = True
             if a.startswith("spec-"):
                 f = False
             diffs[i] = (rec, a, d, f)
